@@ -962,9 +962,10 @@ Section StringBuilder.
     b1 <- sb_grow (sbsize b + n) b ;;
     Ok (b1, length (sbdata b1) - sbsize b1 - 1).
 
+  (* repaired code (8abaeda): check(newsize == self.size or newsize < self.data.size) *)
   Definition sb_commit (n : nat) (b : sb) : res sb :=
     let newsize := sbsize b + n in
-    if newsize <=? length (sbdata b) then Ok (mksb (sbdata b) newsize) else Trap TrapNoSpace.
+    if (newsize =? sbsize b) || (newsize <? length (sbdata b)) then Ok (mksb (sbdata b) newsize) else Trap TrapNoSpace.
 
   Definition sb_rollback (n : nat) (b : sb) : res sb :=
     if n =? 0 then Ok b else
